@@ -58,6 +58,10 @@ pub enum Fault {
     /// worker re-raises the panic with resume_unwind (what rayon's par_iter or a scoped join does):
     /// the hook runs on the helper thread only
     HelperThreadPanic { j: usize },
+    /// a session that feeds the loader on demand (`struct Session { results: Pipe, requests: Sender }`):
+    /// the consumer feeds one input and takes one output k times, drops the iterator and only then
+    /// closes the feed; a worker is blocked in the upstream's next() while the iterator is dropped
+    DropThenCloseFeed { k: usize },
 }
 
 #[derive(Serialize, Deserialize, Clone, Debug)]
@@ -184,6 +188,13 @@ pub fn grid() -> Vec<(Shape, u8, Option<usize>, Fault)> {
             }
         }
     }
+    // ---- demand-fed upstream: the iterator is dropped before the feed is closed
+    for k in [0usize, 1, 3, 8] {
+        for w in 1..=3u8 {
+            g.push((Shape::Pipe, w, None, Fault::DropThenCloseFeed { k }));
+            g.push((Shape::PipeBuffered(1), w, None, Fault::DropThenCloseFeed { k }));
+        }
+    }
     // ---- the panic is raised on a helper thread of the processing function
     for j in [0usize, 3, 8] {
         for w in 1..=3u8 {
@@ -295,6 +306,7 @@ impl Scenario for C09 {
             Fault::FnPanicAfterTrainBpe { j } => j as u64 + 3,
             Fault::FnPanicTwoPipes { j, order } => j as u64 + 3 + order as u64,
             Fault::HelperThreadPanic { j } => j as u64 + 2,
+            Fault::DropThenCloseFeed { k } => k as u64 + 2,
         };
         f + self.w as u64
             + match self.shape {
@@ -332,6 +344,11 @@ impl Scenario for C09 {
             Fault::FnPanicTwoPipes { j, order } => {
                 if j > 0 {
                     push(&|c| c.fault = Fault::FnPanicTwoPipes { j: j - 1, order });
+                }
+            }
+            Fault::DropThenCloseFeed { k } => {
+                if k > 0 {
+                    push(&|c| c.fault = Fault::DropThenCloseFeed { k: k - 1 });
                 }
             }
             Fault::HelperThreadPanic { j } => {
@@ -402,6 +419,7 @@ impl Scenario for C09 {
             Fault::FnPanicAfterTrainBpe { .. } => "fn-panic-after-train_bpe",
             Fault::FnPanicTwoPipes { .. } => "fn-panic-with-second-pipe",
             Fault::HelperThreadPanic { .. } => "panic-on-helper-thread",
+            Fault::DropThenCloseFeed { .. } => "drop-before-feed-closed",
             Fault::SrcPanic { .. } => "src-panic",
         };
         format!("{}/{}/{}", v.class, shape, fault)
@@ -513,8 +531,16 @@ impl Scenario for C09 {
                 rt::log(Kind::FnEnd, x, 0);
                 f_val(x)
             });
+            let feed = Arc::new(crate::c05::Gate::new());
             let src = PanickingSrc {
-                inner: Src { next: 0, n: sc.n.unwrap_or(usize::MAX), delay: Arc::new(vec![]), hinted: sc.hinted, gate: None },
+                inner: Src {
+                    next: 0,
+                    n: sc.n.unwrap_or(usize::MAX),
+                    delay: Arc::new(vec![]),
+                    hinted: sc.hinted,
+                    // window 0: item i exists once i + 1 inputs were fed
+                    gate: if matches!(sc.fault, Fault::DropThenCloseFeed { .. }) { Some((feed.clone(), 0)) } else { None },
+                },
                 panic_at: src_panic_at,
             };
             let fm = f.clone();
@@ -621,6 +647,25 @@ impl Scenario for C09 {
                     rt::log(Kind::Drop, got as u64, 0);
                     rt::log(Kind::Fault, 1, got as u64);
                     drop(it);
+                    rt::wait_threads_exit();
+                }
+                Fault::DropThenCloseFeed { k } => {
+                    let mut got = 0usize;
+                    while got < k {
+                        feed.advance(); // one more input
+                        match it.next() {
+                            Some(v) => {
+                                rt::log(Kind::Recv, got as u64, v);
+                                got += 1;
+                            }
+                            None => break,
+                        }
+                    }
+                    rt::log(Kind::Drop, got as u64, 0);
+                    rt::log(Kind::Fault, 11, got as u64);
+                    drop(it); // must not wait for the feed
+                    rt::log(Kind::Note, 5, 0);
+                    feed.close();
                     rt::wait_threads_exit();
                 }
                 Fault::FnPanicTwoPipes { order, .. } => {
@@ -801,7 +846,15 @@ impl C09 {
             }
         }
         let live: Vec<String> = r.live_threads().iter().map(|t| t.name.clone()).collect();
-        match self.fault {
+        let fault = match self.fault.clone() {
+            // judged like a plain drop
+            Fault::DropThenCloseFeed { k } => {
+                stats.fault("iterator_dropped_before_its_demand_feed_was_closed");
+                Fault::Drop { k, idle: 0 }
+            }
+            f => f,
+        };
+        match fault {
             Fault::Drop { k, idle } => {
                 stats.fault("consumer_drop");
                 if idle > 0 {
@@ -835,6 +888,7 @@ impl C09 {
                 }
                 None
             }
+            Fault::DropThenCloseFeed { .. } => None, // mapped to Drop above
             Fault::FnPanic { j, .. }
             | Fault::SrcPanic { j, .. }
             | Fault::FnPanicAfterTrainBpe { j }
